@@ -14,6 +14,7 @@ import io
 import os
 import re
 import struct
+import zipfile
 
 from common import REPO, coq_str, coq_list, coq_opt, coq_bool, coq_Z, coq_eval_shards
 
@@ -586,6 +587,80 @@ def run_docx(ctx):
                    (f"{len(failing)} disagreements, first: {info[failing[0]]!r} " if failing else "") + log[:800])
 
 
+# ----------------------------------------------------------------------------- tiny document writers (harness only)
+def make_pdf(pages):
+    """pages: list of None (no content stream text) | str (text shown with Tj; may be whitespace)."""
+    objs = {}
+    n = len(pages)
+    kids = []
+    objs[3] = b"<< /Type /Font /Subtype /Type1 /BaseFont /Helvetica /Encoding /WinAnsiEncoding >>"
+    num = 4
+    for t in pages:
+        pg, cs = num, num + 1
+        num += 2
+        kids.append(pg)
+        if t is None:
+            stream = b""
+        else:
+            esc = t.replace("\\", "\\\\").replace("(", "\\(").replace(")", "\\)")
+            stream = ("BT /F1 12 Tf 72 720 Td (%s) Tj ET" % esc).encode("latin-1")
+        objs[cs] = b"<< /Length %d >>\nstream\n" % len(stream) + stream + b"\nendstream"
+        objs[pg] = (b"<< /Type /Page /Parent 2 0 R /MediaBox [0 0 612 792] /Resources << /Font << /F1 3 0 R >> >> "
+                    b"/Contents %d 0 R >>" % cs)
+    objs[1] = b"<< /Type /Catalog /Pages 2 0 R >>"
+    objs[2] = b"<< /Type /Pages /Count %d /Kids [%s] >>" % (n, b" ".join(b"%d 0 R" % k for k in kids))
+    out = bytearray(b"%PDF-1.4\n%\xe2\xe3\xcf\xd3\n")
+    offs = {}
+    for k in sorted(objs):
+        offs[k] = len(out)
+        out += b"%d 0 obj\n" % k + objs[k] + b"\nendobj\n"
+    xref = len(out)
+    out += b"xref\n0 %d\n" % (num) + b"0000000000 65535 f \n"
+    for k in range(1, num):
+        out += b"%010d 00000 n \n" % offs[k]
+    out += b"trailer\n<< /Size %d /Root 1 0 R >>\nstartxref\n%d\n%%%%EOF\n" % (num, xref)
+    return bytes(out)
+
+
+NS_P = "http://schemas.openxmlformats.org/presentationml/2006/main"
+NS_A = "http://schemas.openxmlformats.org/drawingml/2006/main"
+NS_R = "http://schemas.openxmlformats.org/officeDocument/2006/relationships"
+REL = "http://schemas.openxmlformats.org/package/2006/relationships"
+
+def make_pptx(slides):
+    """slides: list of (file_number, text or None) in PRESENTATION order; file names slide<file_number>.xml."""
+    buf = io.BytesIO()
+    with zipfile.ZipFile(buf, "w") as z:
+        ct = ('<?xml version="1.0" encoding="UTF-8"?><Types xmlns="http://schemas.openxmlformats.org/package/2006/content-types">'
+              '<Default Extension="rels" ContentType="application/vnd.openxmlformats-package.relationships+xml"/>'
+              '<Default Extension="xml" ContentType="application/xml"/>'
+              '<Override PartName="/ppt/presentation.xml" ContentType="application/vnd.openxmlformats-officedocument.presentationml.presentation.main+xml"/>'
+              + "".join(f'<Override PartName="/ppt/slides/slide{fn}.xml" ContentType="application/vnd.openxmlformats-officedocument.presentationml.slide+xml"/>' for fn, _ in slides)
+              + '</Types>')
+        z.writestr("[Content_Types].xml", ct)
+        z.writestr("_rels/.rels", f'<?xml version="1.0"?><Relationships xmlns="{REL}"><Relationship Id="rId1" '
+                   f'Type="{NS_R}/officeDocument" Target="ppt/presentation.xml"/></Relationships>')
+        # rel ids deliberately in FILE order, sldIdLst in presentation order
+        by_file = sorted(fn for fn, _ in slides)
+        rid = {fn: f"rId{10 + i}" for i, fn in enumerate(by_file)}
+        z.writestr("ppt/_rels/presentation.xml.rels", f'<?xml version="1.0"?><Relationships xmlns="{REL}">'
+                   + "".join(f'<Relationship Id="{rid[fn]}" Type="{NS_R}/slide" Target="slides/slide{fn}.xml"/>' for fn in by_file)
+                   + '</Relationships>')
+        z.writestr("ppt/presentation.xml", f'<?xml version="1.0"?><p:presentation xmlns:p="{NS_P}" xmlns:r="{NS_R}" xmlns:a="{NS_A}">'
+                   '<p:sldIdLst>' + "".join(f'<p:sldId id="{256 + i}" r:id="{rid[fn]}"/>' for i, (fn, _) in enumerate(slides))
+                   + '</p:sldIdLst></p:presentation>')
+        for fn, text in slides:
+            sp = ""
+            if text is not None:
+                sp = ('<p:sp><p:nvSpPr><p:cNvPr id="2" name="TextBox 1"/><p:cNvSpPr txBox="1"/><p:nvPr/></p:nvSpPr><p:spPr/>'
+                      f'<p:txBody><a:bodyPr/><a:p><a:r><a:t xml:space="preserve">{text}</a:t></a:r></a:p></p:txBody></p:sp>')
+            z.writestr(f"ppt/slides/slide{fn}.xml", f'<?xml version="1.0"?><p:sld xmlns:p="{NS_P}" xmlns:r="{NS_R}" xmlns:a="{NS_A}">'
+                       f'<p:cSld><p:spTree><p:nvGrpSpPr><p:cNvPr id="1" name=""/><p:cNvGrpSpPr/><p:nvPr/></p:nvGrpSpPr><p:grpSpPr/>{sp}</p:spTree></p:cSld></p:sld>')
+            z.writestr(f"ppt/slides/_rels/slide{fn}.xml.rels", f'<?xml version="1.0"?><Relationships xmlns="{REL}"></Relationships>')
+    buf.seek(0)
+    return buf
+
+
 # ----------------------------------------------------------------------------- (c) end to end
 def run_end_to_end(ctx):
     import sharepoint2text
@@ -640,6 +715,58 @@ def run_end_to_end(ctx):
             us, ft = observe(c)
             oracle_units(ctx, "e2e:mbox", type(c).__name__, us, ft, True,
                          [(f"Mb{j}q", 1)] if len(outs) == k and "Mb" in bodies[j] else (), 1, {"mbox": mbox})
+    # PDF / PPTX: generated N-page documents, blank and whitespace-only pages/slides in first/middle/last position
+    from sharepoint2text.parsing.extractors.pdf import pdf_extractor
+    from sharepoint2text.parsing.extractors.ms_modern import pptx_extractor
+
+    def layouts(count):
+        out = [["tok"], ["blank"], ["blank", "tok"], ["tok", "blank"], ["tok", "blank", "tok"], ["blank", "blank", "tok"],
+               ["tok", "ws", "tok", "blank"], ["ws", "tok", "blank", "blank", "tok", "tok"], ["tok", "tok", "blank", "tok", "ws", "blank"]]
+        while len(out) < count:
+            out.append([rng.choice(["tok", "tok", "blank", "ws"]) for _ in range(rng.randint(1, 6))])
+        return out[:count]
+
+    def positional(where, c, kinds, replay):
+        us, ft = observe(c)
+        n = len(kinds)
+        ctx.case((where, tuple(kinds)), n >= 2, kind=where)
+        marks = [(f"Mk{j}q", j) for j in range(1, n + 1) if kinds[j - 1] == "tok"]
+        nums = [u[0] for u in us]
+        if nums != list(range(1, len(nums) + 1)):
+            ctx.finding(f"{where}:unit-number-not-source-position", f"{type(c).__name__}: unit numbers {nums} for {n} "
+                        f"pages/slides {kinds}", dict(replay, units=us))
+        oracle_units(ctx, where, type(c).__name__, us, ft, True, marks, n, replay)
+
+    for kinds in layouts(ctx.n(30, 300)):
+        texts = [f"Mk{j}q page text" if k == "tok" else (None if k == "blank" else rng.choice([" ", "   "]))
+                 for j, k in enumerate(kinds, 1)]
+        data = make_pdf(texts)
+        try:
+            outs = list(pdf_extractor.read_pdf(io.BytesIO(data), "x.pdf"))
+        except Exception as e:  # noqa
+            ctx.finding("e2e:pdf:generated-document-rejected", f"read_pdf raised {type(e).__name__} on a generated "
+                        f"{len(kinds)}-page PDF {kinds}", {"pdf": data, "kinds": kinds})
+            continue
+        for c in outs:
+            positional("e2e:pdf", c, kinds, {"page_kinds": kinds, "pdf": data})
+    for kinds in layouts(ctx.n(25, 250)):
+        n = len(kinds)
+        files = list(range(1, n + 1))
+        if rng.random() < 0.8:
+            rng.shuffle(files)           # presentation order differs from file-name order
+        if rng.random() < 0.3:
+            files = [f + rng.randint(0, 1) * 10 for f in files]  # gaps in file numbering
+        slides = [(fn, f"Mk{j}q slide text" if k == "tok" else (None if k == "blank" else "  "))
+                  for j, (fn, k) in enumerate(zip(files, kinds), 1)]
+        doc = make_pptx(slides)
+        try:
+            outs = list(pptx_extractor.read_pptx(doc, "x.pptx"))
+        except Exception as e:  # noqa
+            ctx.finding("e2e:pptx:generated-document-rejected", f"read_pptx raised {type(e).__name__} on a generated "
+                        f"{n}-slide PPTX", {"slides": slides})
+            continue
+        for c in outs:
+            positional("e2e:pptx", c, kinds, {"slide_kinds": kinds, "slide_files_in_presentation_order": files})
     # EPUB: spine with unreadable items (missing file / not in manifest): chapter number = spine position
     import zipfile
     from sharepoint2text.parsing.extractors import epub_extractor
